@@ -328,9 +328,9 @@ def run(ctx):
         ctx.ob("R05.5", "child-only:%s" % callee, cs == allowed, "", "callers of %s: %s (allowed: %s)" % (callee, cs, allowed))
     if fm.ok:
         for fn, bb, t in callers_of(prog, "posix::_exit"):
-            ctx.ob("R05.5", "_exit-in-child", fn.path == fm.fn.path and bb in fm.child_region and bb not in fm.parent_region, fn.loc(bb), "_exit only in the fork-child region")
+            ctx.ob("R05.5", "_exit-in-child", fm.in_child(fn, bb), fn.loc(bb), "_exit only in the fork-child region (or in a function that only runs there)")
         for fn, bb, t in callers_of(prog, de.path):
-            ctx.ob("R05.5", "do_exec-in-child", fn.path == fm.fn.path and bb in fm.child_region and bb not in fm.parent_region, fn.loc(bb), "do_exec only in the fork-child region")
+            ctx.ob("R05.5", "do_exec-in-child", fm.in_child(fn, bb), fn.loc(bb), "do_exec only in the fork-child region")
         # raw libc state-changing calls only inside their wrappers
         for fn, bb, t in extern_calls(prog, ["dup2", "chdir", "fchdir", "setuid", "setgid", "setpgid", "setsid", "signal", "sigaction", "pthread_sigmask", "sigprocmask", "_exit", "exit", "umask", "chroot"]):
             nm = M.callee_str(t["f"]).split("::")[-1]
